@@ -272,11 +272,15 @@ def h4_ctm(timeout=100, **kw):
             from pdfminer.pdftypes import PDFObjRef
             doc.objs[50] = mb
             mb = PDFObjRef(doc, 50)
-        page = pp.PDFPage(doc, 1, {"MediaBox": mb, "Rotate": rot}, None)
+        crop = ex.choice(2, "crop")            # a CropBox strictly inside the MediaBox: the page box reported stays the MediaBox
+        attrs = {"MediaBox": mb, "Rotate": rot}
+        if crop:
+            attrs["CropBox"] = [x0 + (x1 - x0) / 4, y0 + (y1 - y0) / 4, x1 - (x1 - x0) / 4, y1 - (y1 - y0) / 8]
+        page = pp.PDFPage(doc, 1, attrs, None)
         rm = pi.PDFResourceManager()
         dev = Dev(rm, laparams=None)
         pi.PDFPageInterpreter(rm, dev).process_page(page)
-        info = {"x0": x0, "y0": y0, "x1": x1, "y1": y1, "rot": rot}
+        info = {"x0": x0, "y0": y0, "x1": x1, "y1": y1, "rot": rot, "crop": crop}
         a, b, c, d = ROT[90 * k]
         ctm = dev.seen_ctm
         ex.require(SB(z3.And([symx.zr(p) == symx.zr(q) for p, q in zip(ctm[:4], (a, b, c, d))])), "linear part of the page CTM is not a clockwise rotation by Rotate", **info)
@@ -294,9 +298,9 @@ def h4_ctm(timeout=100, **kw):
         ex.require((bb[0] == 0) & (bb[1] == 0) & (bb[2] == W) & (bb[3] == H), "LTPage.bbox is not (0,0,W,H) of the rotated page", **info)
 
     def conc(m, info):
-        return {k: symx.mval(m, info[k]) for k in ("x0", "y0", "x1", "y1", "rot")}
+        return dict({k: symx.mval(m, info[k]) for k in ("x0", "y0", "x1", "y1", "rot")}, crop=info["crop"])
     return core.run_symx("H4_ctm", fn, [pi.PDFPageInterpreter.process_page, cv.PDFLayoutAnalyzer.begin_page, pp.PDFPage.__init__, u.apply_matrix_rect, u.parse_rect],
-                         {"MediaBox": "symbolic reals, |v| <= 5000, x0<x1, y0<y1, direct or indirect", "Rotate": "90*k + 360*t, t in -3..3"}, timeout,
+                         {"MediaBox": "symbolic reals, |v| <= 5000, x0<x1, y0<y1, direct or indirect", "CropBox": "absent or strictly inside", "Rotate": "90*k + 360*t, t in -3..3"}, timeout,
                          concretize=conc, shims={"namespace_shims": shims})
 
 
@@ -400,7 +404,10 @@ def replay(harness, inp):
 
             def receive_layout(self, ltpage):
                 out["bbox"] = ltpage.bbox
-        page = pp.PDFPage(_StubDoc(), 1, {"MediaBox": [x0, y0, x1, y1], "Rotate": rot}, None)
+        attrs = {"MediaBox": [x0, y0, x1, y1], "Rotate": rot}
+        if inp.get("crop"):
+            attrs["CropBox"] = [x0 + (x1 - x0) / 4, y0 + (y1 - y0) / 4, x1 - (x1 - x0) / 4, y1 - (y1 - y0) / 8]
+        page = pp.PDFPage(_StubDoc(), 1, attrs, None)
         rm = pi.PDFResourceManager()
         pi.PDFPageInterpreter(rm, Dev(rm, laparams=None)).process_page(page)
         k = (rot % 360) // 90
